@@ -424,7 +424,8 @@ def punctuation_symetrify(tree, **params):
             candnum = leftmost_term.data['num'] - 1
             cand = terms[candnum - 1]
             if cand.data['word'] in trees.PAIRPUNCT \
-               and not cand in done:
+               and not cand in done \
+               and len(cand.parent.children) > 1:
                 cand.parent.children.remove(cand)
                 cand.parent = terminal.parent
                 terminal.parent.children.append(cand)
@@ -437,7 +438,8 @@ def punctuation_symetrify(tree, **params):
             candnum = rightmost_term.data['num'] + 1
             cand = terms[candnum - 1]
             if cand.data['word'] in trees.PAIRPUNCT \
-               and not cand in done:
+               and not cand in done \
+               and len(cand.parent.children) > 1:
                 cand.parent.children.remove(cand)
                 cand.parent = terminal.parent
                 terminal.parent.children.append(cand)
@@ -455,9 +457,11 @@ def punctuation_root(tree, **params):
     """
     terms = trees.terminals(tree)
     punct = [terminal for terminal in terms
-             if terminal.data['word'] in trees.PUNCT \
-             and len(trees.children(terminal.parent)) > 1]
+             if terminal.data['word'] in trees.PUNCT]
     for p in punct:
+        # never take the last child away from a node
+        if len(p.parent.children) < 2:
+            continue
         p.parent.children.remove(p)
         tree.children.append(p)
         p.parent = tree
